@@ -26,11 +26,21 @@ Proof.
     destruct (cw_beq eff full); inversion Hc.
 Qed.
 
-Lemma cw_rinv_static st k nc deps : cw_rinv st -> cw_rinv (cw_add_static st k nc deps).
+Lemma cw_rinv_loaded st k nc deps orig c : cw_rinv st -> cw_rinv (cw_add_loaded st k nc deps orig c).
 Proof.
-  intros Hr. unfold cw_add_static. destruct (cw_find k st); [exact Hr|]. intros x Hx Hrt. cbn [cs_objs cs_files] in *.
-  destruct Hx as [<-|Hx]; [discriminate Hrt|apply Hr; assumption].
+  intros Hr. unfold cw_add_loaded. destruct (cw_find k st) eqn:Hf; [exact Hr|]. intros x Hx Hrt. cbn [cs_objs cs_files] in *.
+  destruct Hx as [<-|Hx].
+  - unfold co_runtime in Hrt. cbn [co_pkg co_key] in *. rewrite Hrt. unfold cw_fmem. cbn [existsb fst]. rewrite cw_keq_refl. reflexivity.
+  - pose proof (Hr x Hx Hrt) as Hm. destruct (cw_origin_runtime orig); [|exact Hm].
+    unfold cw_fmem. cbn [existsb fst]. destruct (cw_keq (co_key x) k) eqn:E; [reflexivity|]. cbn [orb].
+    fold (cw_fmem (co_key x) (cw_fremove k (cs_files st))). unfold cw_fremove.
+    rewrite (cw_fmem_filter (fun y => negb (cw_keq k y))), Hm.
+    assert (E' : cw_keq k (co_key x) = false).
+    { destruct (cw_keq k (co_key x)) eqn:E2; [|reflexivity]. apply cw_keq_eq in E2. subst k. rewrite cw_keq_refl in E. discriminate. }
+    rewrite E'. reflexivity.
 Qed.
+Lemma cw_rinv_static st k nc deps : cw_rinv st -> cw_rinv (cw_add_static st k nc deps).
+Proof. apply cw_rinv_loaded. Qed.
 
 Lemma cw_rinv_rm R st : cw_rinv st -> cw_rinv (cw_rm R st).
 Proof.
